@@ -1602,6 +1602,9 @@ func (in *Interp) convert(v Value, from, to types.Type) Value {
 			if w, _, ok := intWidth(fsl.Elem()); ok && w == 8 {
 				return mkStr(in.sliceTerms(v.(Slice)))
 			}
+			if w, _, ok := intWidth(fsl.Elem()); ok && w == 32 {
+				return in.runesToStr(v.(Slice))
+			}
 			panic(in.unsupported("[]rune -> string"))
 		}
 		return v
